@@ -33,6 +33,8 @@ EXPLICIT = {
     "slice::get_unchecked": "unchecked", "slice::get_unchecked_mut": "unchecked", "NonZero::new_unchecked": "unchecked",
     "hint::unreachable_unchecked": "unchecked", "get_unchecked": "unchecked", "get_unchecked_mut": "unchecked",
     "RefCell::borrow": "borrow", "RefCell::borrow_mut": "borrow",
+    # `clamp` asserts min <= max (also in optimised builds)
+    "Ord::clamp": "clamp", "f32::clamp": "clamp", "f64::clamp": "clamp",
     "Mutex::lock": None,
 }
 ASSERT_FAMILY = {"Overflow": "arith", "OverflowNeg": "arith", "DivisionByZero": "divzero", "RemainderByZero": "divzero", "BoundsCheck": "bounds"}
